@@ -194,6 +194,10 @@ def gen_e2e(tier, seed):
         yield {'op': 'extract', 'spec': spec, 'policy': 'drop', 'misses': True, 'columns': ['x', 'y'], 'dim': 'station'}
         for policy in ('error', 'drop', 'fill'):
             yield {'op': 'extract', 'spec': spec, 'policy': policy, 'misses': False, 'empty_record': True}
+        if spec is specs[0]:
+            # numbers of points outside the model at which an exit status derived from a count would wrap around to success
+            for n in (255, 256, 512):
+                yield {'op': 'extract', 'spec': spec, 'policy': 'error', 'misses': False, 'many_misses': n}
         for fmt, ext in (('geojson', '.geojson'), ('geojson', '.json'), ('wkt', '.wkt'), ('wkb', '.wkb'), ('shapefile', '.shp')):
             yield {'op': 'export', 'spec': spec, 'format': fmt, 'ext': ext, 'explicit': False}
             yield {'op': 'export', 'spec': spec, 'format': fmt, 'ext': '.dat', 'explicit': True}
@@ -215,7 +219,8 @@ def run_cli(argv):
             cli_main(argv)
     except SystemExit as e:
         code = e.code
-        return (0 if code in (None, 0) else (code if isinstance(code, int) else 1)), out.getvalue() + err.getvalue()
+        # what the shell sees: the low eight bits of an integer status (sys.exit(256) is a success to the caller)
+        return (0 if code in (None, 0) else ((code & 0xFF) if isinstance(code, int) else 1)), out.getvalue() + err.getvalue()
     return 0, out.getvalue() + err.getvalue()
 
 
@@ -284,6 +289,8 @@ def _test_e2e(inp, tmp):
             if inp['misses']:
                 pts.insert(1, (0.0, 0.0))
                 pts.append((179.0, 80.0))
+            for k in range(inp.get('many_misses', 0)):
+                pts.append((0.001 * k, 0.0))            # far outside every model used here
             cols = inp.get('columns', ['lon', 'lat'])
             csv = os.path.join(tmp, 'points.csv')
             with open(csv, 'w') as f:
